@@ -68,6 +68,45 @@ def term(e, binds):
     raise NotFormula(T.show(e)[:30])
 
 
+def quantifier_structure(chk, m, rid):
+    """every arm whose sub side is a union quantifies over all its members, every arm whose super side is a union over some member"""
+    n = 0
+    for arm in m['arms']:
+        p = arm['pat']
+        if p.get('k') != 'PTuple' or len(p['p']) != 2 or arm.get('g'):
+            continue
+
+        def orbind(q):
+            if q.get('k') == 'PTupleStruct' and q['d'].split('::')[-1] == 'Or' and len(q['p']) == 1 and q['p'][0].get('k') == 'Bind':
+                return q['p'][0]['n']
+            return None
+        l, r = orbind(p['p'][0]), orbind(p['p'][1])
+        if (l is None) == (r is None):
+            continue
+        # the top-level connective of the arm body
+        b = T.peel(arm['b'])
+        while b.get('k') == 'Block' and 'e' in b and not b.get('s'):
+            b = T.peel(b['e'])
+        top = None
+        if b.get('k') == 'MCall' and b['n'] in ('all', 'any'):
+            rr = T.peel(b['r'])
+            if rr.get('k') == 'MCall' and rr['n'] in ('iter', 'into_iter') and T.peel(rr['r']).get('k') == 'Local':
+                top = (b['n'], T.peel(rr['r'])['n'])
+        if top is None:
+            continue
+        n += 1
+        side = 'sub' if r is not None else 'super'
+        want = 'all' if side == 'sub' else 'any'
+        inst = '%s:%s' % (T.show(p)[:40].replace(' ', ''), side)
+        if top == (want, r if r is not None else l):
+            chk.ok(rid, ('quantifier', inst), sample='%s => %s over the members of the %s-side union' % (T.show(p)[:40], want, side))
+        else:
+            chk.bad(rid, 'Context::structural_supertype_of', 'quantifier:' + inst, 'the arm `%s` answers with `%s` over `%s`: %s' % (
+                T.show(p)[:50], top[0], top[1], 'a type is a supertype of a union only if it is a supertype of every member — with `any`, `{"a", "b"}` covers `{"a", "b"} or Int` and a '
+                'match with arms for "a" and "b" only is taken as exhaustive' if side == 'sub' else 'a union is a supertype of a type as soon as one member is'), COMPARE, arm['l'])
+    chk.floor('single-union arms of structural_supertype_of', n, 3)
+
+
 def union_rule(chk, fx):
     import itertools
     chk.rule('C06-union', 'subtyping of unions is a preorder: the three union arms of Context::structural_supertype_of — (Or, Or), (Or, t) and (t, Or) — are read as quantifier formulas '
@@ -102,6 +141,7 @@ def union_rule(chk, fx):
         except NotFormula as ex:
             chk.need(False, 'structural_supertype_of: the %s arm is outside the formula fragment (%s)' % (key, ex))
             return
+    quantifier_structure(chk, m, 'C06-union')
     atoms = ['s', 'n', 't', 'e', 'f']
     below = {(x, x) for x in atoms} | {('s', 'e'), ('n', 'e'), ('t', 'e')}          # (sub, super)
     types = [('a', x) for x in atoms] + [('u', frozenset(c)) for k_ in (2, 3) for c in itertools.combinations(atoms, k_)]
